@@ -1,10 +1,11 @@
 (* Properties/C01.v — pinned statements only. *)
-From Boreal Require Import Base.Prelude Base.ListX Base.Bytes Base.Sorted Model.Literals Model.AcScan
+From Boreal Require Import Base.Prelude Base.ListX Base.Bytes Base.Sorted Base.Consts Model.Base64 Model.Literals Model.AcScan
   Spec.TextSpec Model.TextCase Proofs.AcScanInsert Proofs.TextFullword Proofs.TextAtoms Proofs.TextLiterals
-  Proofs.TextMain Proofs.TextPinned.
+  Proofs.TextMain Proofs.TextBase64 Proofs.TextFull Proofs.TextPinned.
 
-(* The full statement of the property for the model (DESIGN §7 C01). *)
-Definition C01_text_matches_statement : Prop :=
+(* The full statement of the property for the model (DESIGN §7 C01), proved at full strength: every
+   well-formed declaration (all modifier shapes, base64 with any alphabet included), every input. *)
+Theorem C01_text_matches :
   forall d m prm, wf_decl d = true ->
     nlen (spec_offsets d m) <= p_max_nb_matches prm ->     (* below the limit; the limit contract is C14 *)
     let r := model_scan_text prm d m in
@@ -13,20 +14,19 @@ Definition C01_text_matches_statement : Prop :=
                          /\ sm_len x = nlen (e_bytes e) /\ sm_key x = e_key e) r
     /\ Forall (fun x => sm_base x = 0
                         /\ sm_data x = slice (sm_off x) (sm_off x + N.min (sm_len x) (p_match_max_length prm)) m) r.
+Proof. exact text_matches_full. Qed.
 
-(* Proved: the full statement for every declaration whose base64 literals pass the per-declaration
-   validation `b64_okb` (a decidable function of the declaration alone, `true` by definition when the
-   string has no base64 modifier, and evaluated on every generated case by the check). *)
-Theorem C01_text_matches_partial :
-  forall d m prm, wf_decl d = true -> b64_okb d = true ->
-    nlen (spec_offsets d m) <= p_max_nb_matches prm ->
-    let r := model_scan_text prm d m in
-    map sm_off r = spec_offsets d m
-    /\ Forall (fun x => exists e, In e (enc_set d) /\ occ d m (sm_off x) e = true
-                         /\ sm_len x = nlen (e_bytes e) /\ sm_key x = e_key e) r
-    /\ Forall (fun x => sm_base x = 0
-                        /\ sm_data x = slice (sm_off x) (sm_off x + N.min (sm_len x) (p_match_max_length prm)) m) r.
-Proof. exact text_matches_main. Qed.
+(* base64: boreal's `encode_base64` (shifts and masks, special cases for the three alignments and the
+   1- and 2-byte remainders) is the declarative trimmed encoding, for every alphabet, every non-empty
+   byte string, the three alignments; so the per-declaration validation always succeeds *)
+Theorem C01_encode_base64 :
+  forall s alpha off, bytes_ok s = true -> s <> [] -> off < 3 ->
+    encode_base64 s alpha off
+    = opt_of_bytes (spec_b64 (match alpha with Some a => a | None => BASE64_DEFAULT_ALPHABET end) s off).
+Proof. exact encode_base64_spec. Qed.
+
+Theorem C01_b64_validation_always_holds : forall d, wf_decl d = true -> b64_okb d = true.
+Proof. exact b64_okb_wf. Qed.
 
 (* xor strings: the key of an occurring encoding lies in the declared range and un-xoring the matched
    bytes with it gives the declared text (widened when the occurrence is wide) *)
@@ -38,13 +38,13 @@ Proof. exact unxor_text. Qed.
 
 (* literal set = encoding set, with the key and the ascii/wide kind recovered from the index *)
 Theorem C01_literal_is_encoding :
-  forall d i lit, wf_decl d = true -> b64_okb d = true ->
+  forall d i lit, wf_decl d = true ->
     nnth_opt i (new_bytes_literals d) = Some lit -> exists e, In e (enc_set d) /\ link d i e.
-Proof. exact lit_to_enc. Qed.
+Proof. exact lit_to_enc_full. Qed.
 
 Theorem C01_encoding_is_literal :
-  forall d e, wf_decl d = true -> b64_okb d = true -> In e (enc_set d) -> exists i, link d i e.
-Proof. exact enc_to_lit. Qed.
+  forall d e, wf_decl d = true -> In e (enc_set d) -> exists i, link d i e.
+Proof. exact enc_to_lit_full. Qed.
 
 (* per-literal completeness: the picked atom is a factor of the literal, so every occurrence of a
    literal is among the candidates confirmed for its variable *)
@@ -112,7 +112,9 @@ Example C01_hyp_fullword_nocase :
   /\ spec_offsets ex_fw_d [65;98;32;120;97;98;32;97;0;66;0;46] = [0; 7].
 Proof. vm_compute. repeat split. Qed.
 
-Print Assumptions C01_text_matches_partial.
+Print Assumptions C01_text_matches.
+Print Assumptions C01_encode_base64.
+Print Assumptions C01_b64_validation_always_holds.
 Print Assumptions C01_unxor.
 Print Assumptions C01_literal_is_encoding.
 Print Assumptions C01_encoding_is_literal.
